@@ -164,3 +164,24 @@ Example sample_created :
     Ok [PRow [lit "a"; lit "t"] [PList [PRow [lit "x"] [PInt 1]; PNone]; PDatetime 5 (Some 0)];
         PRow [lit "a"; lit "t"] [PList []; PNone]].
 Proof. vm_compute. reflexivity. Qed.
+
+(* ---- link between the tables regenerated from sql/types.py and the constants the model is written with:
+   the regular expression the hand-written matcher implements, the JSON keys written by jsonValue / read by
+   fromJson, the atomic and complex type names, the unchecked / ranged verifier branches, needConversion *)
+Theorem C19_tables_link :
+  fixed_decimal_pattern = lit "decimal\(\s*(\d+)\s*,\s*(-?\d+)\s*\)" /\
+  slookup "ArrayType" json_keys = Some ([k_type; k_elementType; k_containsNull], [k_containsNull; k_elementType]) /\
+  slookup "MapType" json_keys = Some ([k_type; k_keyType; k_valueType; k_valueContainsNull],
+                                      [k_keyType; k_valueContainsNull; k_valueType]) /\
+  slookup "StructField" json_keys = Some ([k_name; k_type; k_nullable; k_metadata],
+                                          [k_metadata; k_name; k_nullable; k_type]) /\
+  slookup "StructType" json_keys = Some ([k_type; k_fields], [k_fields]).
+Proof. exact tables_link. Qed.
+Theorem C19_tables_link_atoms :
+  (forall a, In (atomic_class a, atom_name a) atomic_type_names) /\
+  List.length atomic_type_names = 13%nat /\
+  map fst complex_type_names = ["ArrayType"; "MapType"; "StructType"]%string /\
+  nocheck_types = ["StringType"]%string /\ plain_checked_types = [] /\
+  need_conversion_const = [("DataType", false); ("DateType", false); ("TimestampType", true);
+                           ("StructType", true); ("UserDefinedType", true)]%string.
+Proof. exact tables_link_atoms. Qed.
